@@ -47,7 +47,7 @@ def cases(ctx):
             if k < 2 or rng.random() < (0.05 if not thorough else 0.5):
                 yield {'kind': 'regexp', 'X': r, 'ns': [0, 1, 2]}
     for i in range(50 * K):
-        yield {'kind': 'pda', 'X': gen.ambiguous_stack_pda(rng) if i % 12 == 5 else gen.random_pda(rng), 'ns': [0, 1, 2, 3] if i % 5 == 0 else [0, 1, 2]}
+        yield {'kind': 'pda', 'X': gen.ambiguous_stack_pda(rng) if i % 12 == 5 else gen.fanout_pda(rng) if i % 12 == 9 else gen.random_pda(rng), 'ns': [0, 1, 2, 3] if i % 5 == 0 else [0, 1, 2]}
 
 
 OPS = {'dfa': ('dfa_words', 'D'), 'nfa': ('nfa_words', 'N'), 'regexp': ('regexp_words', 'r'), 'tm': ('tm_words', 'T'),
